@@ -48,6 +48,11 @@ Definition P_C11 (tr : list tev) : bool := c11_run (mk_c11 [] None) tr.
    unannounced.  The class: not FullFDT mode and some publish failed during the scenario. *)
 Definition known_D27 (full publish_failed : bool) : bool := negb full && publish_failed.
 
+(* recorded finding D42: with fdt_duration = 0 the test "the current FDT instance will expire" holds at
+   every read, so every read publishes and sends a new FDT instance: at a fixed instant the reads
+   never reach "nothing to send" and no object packet is ever sent.  The class: fdt_duration = 0. *)
+Definition known_D42 (fdt_duration : Z) : bool := (fdt_duration =? 0)%Z.
+
 (* ================= C12 ================= *)
 Record c12obj := mk_c12o {
   x_toi : N; x_npk : nat; x_max : N; x_car : bool; x_allow : bool;
